@@ -11,6 +11,13 @@ CLAIMED = {
          "with <=2 lock_to_index and <=1 re-delivery deviations, is executed from scratch on the real BlockChain; after every delivery the reported chain, "
          "both lookups, tuple links, returned ops and callback ops are compared with a brute-force maximum-weight reference. Exhaustive within the stated bound.",
          "Trusted: the 20-line reference in vf/ref/chain.py; histories needing more headers than the bound, or weights outside the alphabets, are not covered."),
+ "C03": ("bounded-exhaustive differential exploration of programs x flag sets x contexts: real BitcoinVM / Tx.check_solution vs an independent consensus interpreter",
+         "Six layers, each a complete product within its bound: L1 all 256 opcodes x operand-alphabet stacks (depth<=2, 3 for ternary; depth 3 everywhere in thorough) x relevant flag subsets x branch context; "
+         "L2 every script of <=4 (5) tokens over a 30-token control-flow alphabet, also as bare/P2SH/P2WSH spends; L3 limit families (201 ops, 1000 items, 10000/520 bytes, witness sizes, nesting, PUSHDATA forms); "
+         "L4 signature x public-key encoding alphabets x all subsets of 5 signature flags x 4 sigversions, m-of-n multisig n<=3 with every signature sequence, CODESEPARATOR/FindAndDelete, witness amounts; "
+         "L5 P2SH/witness dispatch x scriptSig shapes x witness shapes x all legal subsets of 7 flags; L6 CLTV/CSV operand x locktime x sequence x version product. Verdict (and final stack for single scripts) must equal the reference.",
+         "Trusted: vf/ref/script.py + vf/ref/sighash.py (independent port of Core's interpreter; validated on every run against all 1405 Core script/tx vectors shipped in the repo). "
+         "Scripts outside the alphabets (longer control-flow programs, multi-field DER mutations, taproot) are not covered. NOP2/NOP3 with flag unset + DISCOURAGE_UPGRADABLE_NOPS is unconstrained (Core versions differ)."),
 }
 NOT_YET = "check not built yet (work in progress; see DESIGN.md section 5 for the planned exploration)"
 
